@@ -63,4 +63,289 @@ theorem C05_detector (sess : Session) (f : Obj) (h : validFile DT sess f = true)
     have h4' : alookup "version_release" a = none := by simpa using h4
     simp only [emdVersion, Obj.attrs, h2, h3, h4']
 
+/-- appending a further valid tree keeps the file valid -/
+theorem C05_append_new_tree (sess : Session) (a : Attrs) (roots : List (String × Obj)) (t : Tree)
+    (hv : validFile DT sess (.group a roots) = true)
+    (hw : t.rootedWF CT DT = true) (hp : t.allInfo infoOK = true) :
+    validFile DT sess (.group a (roots ++ [(t.name, encode t)])) = true := by
+  have hwf : t.wf CT DT = true := by
+    simp only [Tree.rootedWF, Bool.and_eq_true] at hw; exact hw.1.1
+  simp only [validFile, Bool.and_eq_true] at hv ⊢
+  refine ⟨⟨hv.1.1, by simp⟩, ?_⟩
+  simp [List.all_append, hv.2, gtype_encode_root t hw, validGroup_encode t hwf hp]
+
+-- ---------------------------------------------------------------- nodes of a tree vs. nodes at paths
+
+theorem allInfo_at (P : NodeInfo → Bool) : ∀ (p : List String) (t d : Tree), t.allInfo P = true →
+    t.at p = some d → d.allInfo P = true
+  | [], t, d, h, hd => by simp only [Tree.at] at hd; cases hd; exact h
+  | n :: q, .mk i kids, d, h, hd => by
+    simp only [Tree.allInfo, Bool.and_eq_true] at h
+    simp only [Tree.at, Tree.kids_mk] at hd
+    cases hf : findKid n kids with
+    | none => simp [hf] at hd
+    | some c =>
+      simp only [hf] at hd
+      have hc : c.allInfo P = true := by
+        have key : ∀ (l : List Tree), allInfoKids P l = true → findKid n l = some c → c.allInfo P = true := by
+          intro l
+          induction l with
+          | nil => intro _ h2; simp [findKid] at h2
+          | cons x xs ih =>
+            intro h1 h2
+            simp only [allInfoKids, Bool.and_eq_true] at h1
+            simp only [findKid] at h2
+            split at h2
+            · cases h2; exact h1.1
+            · exact ih h1.2 h2
+        exact key kids h.2 hf
+      exact allInfo_at P q c d hc hd
+
+/-- Lemma B: every node reachable by a path satisfies `P` when the whole forest does -/
+theorem paths_of_allInfo (P : NodeInfo → Bool) (kids : List Tree) (h : allInfoKids P kids = true)
+    (n : String) (p : List String) (i : NodeInfo) (hi : cK kids n p = some i) : P i = true := by
+  have := allInfo_at P (n :: p) (.mk default kids)
+  simp only [cK, Option.map_eq_some_iff] at hi
+  obtain ⟨d, hd, rfl⟩ := hi
+  have hd' : (Tree.mk default kids).at (n :: p) = some d := by
+    simp only [Tree.at, Tree.kids_mk]
+    cases hf : findKid n kids with
+    | none => simp [hf] at hd
+    | some c => simpa [hf] using hd
+  have h2 := allInfo_at P (n :: p) (.mk default kids) d
+  have hroot : ∀ (Q : NodeInfo → Bool), allInfoKids Q kids = true →
+      (Tree.mk default kids).at (n :: p) = some d → d.allInfo Q = true := by
+    intro Q hq hat
+    -- descend one level by hand so that nothing is required of the dummy root
+    simp only [Tree.at, Tree.kids_mk] at hat
+    cases hf : findKid n kids with
+    | none => simp [hf] at hat
+    | some c =>
+      simp only [hf] at hat
+      have hc : c.allInfo Q = true := by
+        have key : ∀ (l : List Tree), allInfoKids Q l = true → findKid n l = some c → c.allInfo Q = true := by
+          intro l
+          induction l with
+          | nil => intro _ h2; simp [findKid] at h2
+          | cons x xs ih =>
+            intro h1 h2
+            simp only [allInfoKids, Bool.and_eq_true] at h1
+            simp only [findKid] at h2
+            split at h2
+            · cases h2; exact h1.1
+            · exact ih h1.2 h2
+        exact key kids hq hf
+      exact allInfo_at Q p c d hc hat
+  have := hroot P h hd'
+  cases d with
+  | mk di dk => simp only [Tree.allInfo, Bool.and_eq_true] at this; exact this.1
+
+mutual
+/-- Lemma A: in a well-formed forest every node sits at a path, so a property of all paths is a property of all nodes -/
+theorem allInfo_of_paths (P : NodeInfo → Bool) : ∀ (t : Tree), t.wf CT DT = true → P t.info = true →
+    (∀ n p i, cK t.kids n p = some i → P i = true) → t.allInfo P = true
+  | .mk i kids, hw, hp, hall => by
+    simp only [Tree.wf, Bool.and_eq_true] at hw
+    simp only [Tree.allInfo, Bool.and_eq_true]
+    exact ⟨hp, allInfoKids_of_paths P kids (akeys i.body) hw.2 hall⟩
+theorem allInfoKids_of_paths (P : NodeInfo → Bool) : ∀ (kids : List Tree) (taken : List String),
+    kidsWF CT DT taken kids = true → (∀ n p i, cK kids n p = some i → P i = true) → allInfoKids P kids = true
+  | [], _, _, _ => rfl
+  | t :: ts, taken, hw, hall => by
+    simp only [kidsWF, Bool.and_eq_true] at hw
+    obtain ⟨⟨⟨_, _⟩, htw⟩, hr⟩ := hw
+    simp only [allInfoKids, Bool.and_eq_true]
+    have hfind : findKid t.name (t :: ts) = some t := by simp [findKid]
+    refine ⟨allInfo_of_paths P t htw ?_ ?_, allInfoKids_of_paths P ts _ hr ?_⟩
+    · exact hall t.name [] t.info (by simp [cK, hfind, Tree.at])
+    · intro n p i hi
+      exact hall t.name (n :: p) i (by rw [cK_cons _ _ _ _ _ hfind]; exact hi)
+    · intro n p i hi
+      apply hall n p i
+      have hne : t.name ≠ n := by
+        intro e
+        have hsome : (findKid n ts).isSome = true := by
+          simp only [cK, Option.map_eq_some_iff] at hi
+          obtain ⟨d, hd, _⟩ := hi
+          cases hf : findKid n ts with
+          | none => simp [hf] at hd
+          | some c => rfl
+        have hin : n ∈ names ts := by
+          apply Classical.byContradiction
+          intro hc
+          have := (findKid_none_iff n ts).mpr hc
+          simp [this] at hsome
+        exact kidsWF_names_not_taken ts _ hr n hin (by simp [e])
+      simp only [cK, findKid, hne, if_false] at hi ⊢
+      exact hi
+end
+
+-- ---------------------------------------------------------------- the merged root metadata bundle
+
+theorem mdMerge_mem (over : Bool) (existing : List String) : ∀ (re fe es : List (String × Obj)),
+    mdMergeEntries over existing fe re = .ok es → ∀ x ∈ es, x ∈ fe ∨ x ∈ re
+  | [], fe, es, h, x, hx => by
+    simp only [mdMergeEntries, pure, Except.pure, Except.ok.injEq] at h
+    subst h; exact Or.inl hx
+  | (k, v) :: rest, fe, es, h, x, hx => by
+    simp only [mdMergeEntries] at h
+    split at h
+    · have := mdMerge_mem over existing rest _ es h x hx
+      cases this with
+      | inr h2 => exact Or.inr (List.mem_cons_of_mem _ h2)
+      | inl h2 =>
+        split at h2
+        · -- x ∈ areplace k v fe
+          have key : ∀ (l : List (String × Obj)), x ∈ areplace k v l → x ∈ l ∨ x = (k, v) := by
+            intro l
+            induction l with
+            | nil => intro h3; simp [areplace] at h3
+            | cons kv l ih =>
+              obtain ⟨k', w⟩ := kv
+              simp only [areplace]
+              split
+              · next hk =>
+                intro h3
+                simp only [List.mem_cons] at h3
+                cases h3 with
+                | inl e => right; rw [e, hk]
+                | inr e => left; exact List.mem_cons_of_mem _ e
+              · intro h3
+                simp only [List.mem_cons] at h3
+                cases h3 with
+                | inl e => left; simp [e]
+                | inr e =>
+                  cases ih e with
+                  | inl e2 => left; exact List.mem_cons_of_mem _ e2
+                  | inr e2 => right; exact e2
+          cases key fe h2 with
+          | inl h3 => exact Or.inl h3
+          | inr h3 => right; simp [h3]
+        · exact Or.inl h2
+    · split at h
+      · cases h
+      · split at h
+        · cases h
+        · have := mdMerge_mem over existing rest _ es h x hx
+          cases this with
+          | inr h2 => exact Or.inr (List.mem_cons_of_mem _ h2)
+          | inl h2 =>
+            simp only [List.mem_append, List.mem_singleton] at h2
+            cases h2 with
+            | inl h3 => exact Or.inl h3
+            | inr h3 => right; simp [h3]
+
+/-- the root body after `_append_root_metadata` is a valid root body: the bundle is tagged and all its entries
+    (taken from the file's bundle or from the runtime root's) are tagged, typed Metadata groups -/
+theorem mdBody_ok (over : Bool) (body body' : List (String × Obj)) (entries : List (String × Obj))
+    (hb : bodyOK "root" body = true) (he : entries.all (fun kv => mdEntryOK kv.2) = true)
+    (h : mdBody over body entries = .ok body') : bodyOK "root" body' = true := by
+  have hroot : ("root" == "array") = false := by decide
+  simp only [bodyOK, hroot, Bool.false_eq_true, if_false, Bool.and_true] at hb ⊢
+  unfold mdBody at h
+  by_cases hemp : entries.isEmpty = true
+  · simp only [hemp, if_true, pure, Except.pure, Except.ok.injEq] at h
+    subst h; exact hb
+  · simp only [hemp, Bool.false_eq_true, if_false] at h
+    cases hbm : alookup "metadatabundle" body with
+    | none =>
+      simp only [hbm, bind, Except.bind, pure, Except.pure] at h
+      cases hm : mdMergeEntries over [] [] entries with
+      | error e => simp [hm] at h
+      | ok es =>
+        simp only [hm, Except.ok.injEq] at h
+        subst h
+        simp only [alookup, if_true, bundleOK, Bool.and_eq_true]
+        refine ⟨by simp [Obj.gtype, Obj.attrs, bundleAttrs, alookup], ?_⟩
+        rw [List.all_eq_true]
+        intro x hx
+        cases mdMerge_mem over [] entries [] es hm x hx with
+        | inl h1 => simp at h1
+        | inr h1 => exact (List.all_eq_true.mp he) x h1
+    | some b =>
+      simp only [hbm] at hb
+      simp only [hbm, bind, Except.bind, pure, Except.pure] at h
+      cases hm : mdMergeEntries over ((b.kids.filter (fun kv => kv.2.gtype == some "metadata")).map (·.1))
+          b.kids entries with
+      | error e => simp [hm] at h
+      | ok es =>
+        simp only [hm, Except.ok.injEq] at h
+        subst h
+        rw [alookup_areplace_same _ _ _ (by simp [hbm])]
+        cases b with
+        | dataset a v => simp [bundleOK] at hb
+        | group a k =>
+          simp only [bundleOK, Bool.and_eq_true, Obj.setKids] at hb ⊢
+          refine ⟨by simpa [Obj.gtype, Obj.attrs] using hb.1, ?_⟩
+          rw [List.all_eq_true]
+          intro x hx
+          cases mdMerge_mem over _ entries k es hm x hx with
+          | inl h1 => exact (List.all_eq_true.mp hb.2) x h1
+          | inr h1 => exact (List.all_eq_true.mp he) x h1
+
+/-- the union of C09 keeps the file valid: with `T'` as delivered by `C09_union` -/
+theorem C05_union (sess : Session) (over : Bool) (f : Obj) (F Rt T' : Tree) (body' : List (String × Obj))
+    (hv : validFile DT sess f = true)
+    (hF : F.allInfo infoOK = true) (hR : Rt.allInfo infoOK = true)
+    (hmd : mdBody over F.info.body (mdEntries Rt.info) = .ok body')
+    (hFroot : F.info.gtype = "root")
+    (hmdR : (mdEntries Rt.info).all (fun kv => mdEntryOK kv.2) = true)
+    (hT : T'.rootedWF CT DT = true) (hTi : T'.info = { F.info with body := body' })
+    (hspec : ∀ n p, cK T'.kids n p = combine over (cK F.kids n p) (cK Rt.kids n p)) :
+    validFile DT sess (f.setKids (areplace F.name (encode T') f.kids)) = true := by
+  have hTwf : T'.wf CT DT = true := by
+    simp only [Tree.rootedWF, Bool.and_eq_true] at hT; exact hT.1.1
+  -- every node of T' has a valid body
+  have hFk : allInfoKids infoOK F.kids = true ∧ infoOK F.info = true := by
+    cases F with
+    | mk i k => simp only [Tree.allInfo, Bool.and_eq_true] at hF; exact ⟨hF.2, hF.1⟩
+  have hRk : allInfoKids infoOK Rt.kids = true := by
+    cases Rt with
+    | mk i k => simp only [Tree.allInfo, Bool.and_eq_true] at hR; exact hR.2
+  have hTp : T'.allInfo infoOK = true := by
+    apply allInfo_of_paths infoOK T' hTwf
+    · rw [hTi]
+      have := hFk.2
+      simp only [infoOK, hFroot] at this ⊢
+      exact mdBody_ok over _ _ _ this hmdR hmd
+    · intro n p i hi
+      rw [hspec n p] at hi
+      cases hf : cK F.kids n p with
+      | none =>
+        rw [hf] at hi
+        simp only [combine] at hi
+        exact paths_of_allInfo infoOK Rt.kids hRk n p i hi
+      | some x =>
+        rw [hf] at hi
+        cases hr : cK Rt.kids n p with
+        | none =>
+          rw [hr] at hi; simp only [combine, Option.some.injEq] at hi
+          subst hi; exact paths_of_allInfo infoOK F.kids hFk.1 n p x hf
+        | some y =>
+          rw [hr] at hi; simp only [combine, Option.some.injEq] at hi
+          subst hi
+          split
+          · exact paths_of_allInfo infoOK Rt.kids hRk n p y hr
+          · exact paths_of_allInfo infoOK F.kids hFk.1 n p x hf
+  have hvalid := validGroup_encode (ct := CT) (dt := DT) T' hTwf hTp
+  cases f with
+  | dataset a v => simp [validFile] at hv
+  | group a kids =>
+    simp only [validFile, Bool.and_eq_true, Obj.setKids, Obj.kids] at hv ⊢
+    refine ⟨⟨hv.1.1, ?_⟩, ?_⟩
+    · have : (areplace F.name (encode T') kids).isEmpty = kids.isEmpty := by
+        cases kids with
+        | nil => rfl
+        | cons kv l => obtain ⟨k, w⟩ := kv; simp only [areplace]; split <;> rfl
+      rw [this]; exact hv.1.2
+    · apply all_areplace _ _ _ _ hv.2
+      intro _ _
+      simp [gtype_encode_root T' hT, hvalid]
+
+-- non-vacuity: the C09 example trees have valid bodies, and the files the model writes for them validate
+example : exF.allInfo infoOK = true ∧ exR.allInfo infoOK = true := by decide
+example : validFile DT {} (fileOf {} "u" exF) = true := by decide
+example : (match appendInto DT (fileOf {} "u" exF) exR [] true .yes none with
+    | .ok f => validFile DT {} f | .error _ => false) = true := by decide
+
 end EmdProps
